@@ -17,6 +17,7 @@ import random as _random
 from harness.common import Driver, LeanError, Report, f2b, b2f, lean_stage, seeded
 from harness import compat
 from harness.props.stepper_trace import Tracer, traced, TapeOut, classify_exception
+from harness.props.c19 import iter_bound
 
 REGISTRY = dict(
     text=("Lean 4 theorems about the stepping model, for EVERY sequence of squared norms / uniform draws, every chain "
@@ -179,6 +180,7 @@ def oracle(times, recs, tr, status, tape_driven=True):
     """C18's clauses on one real event stream. Returns (message, klass) or None."""
     step, fills, open_since_done = 0, [], False
     first_fill_seen = False
+    sweeps_since_anchor = 0     # sweeps of the current step since its start / the last jump
     for r in recs:
         kind, a = parse(r)
         if kind == "F":
@@ -196,16 +198,24 @@ def oracle(times, recs, tr, status, tape_driven=True):
             if len(fills) != 1 or fills[0] != times[k + 1]:
                 return f"step {k} completed with fills {fills!r}, expected exactly [{times[k + 1]!r}]", None
             fills, step = [], step + 1
+            sweeps_since_anchor = 0
         elif kind == "W":
             k, t0, t1 = int(a[0]), b2f(a[1]), b2f(a[2])
             if k != step:
                 return f"sweep for step {k} while step {step} is in progress", None
             if not (times[k] <= t0 <= times[k + 1] and times[k] <= t1 <= times[k + 1]):
                 return f"sweep ({t0!r} -> {t1!r}) leaves step {k} = [{times[k]!r}, {times[k + 1]!r}]", None
+            # C18Term.search_closes: opening sweep + at most K + 1 further sweeps until the jump, K from C19Term
+            sweeps_since_anchor += 1
+            nb = iter_bound(times[k], times[k + 1], 1.0, 1.0)
+            if nb is not None and sweeps_since_anchor > nb[0] + 2:
+                return (f"root search in step {k} = [{times[k]!r}, {times[k + 1]!r}] still open after {sweeps_since_anchor} sweeps; "
+                        f"C18Term.search_closes bounds it by K + 2 = {nb[0] + 2} (m={nb[1]}, n={nb[2]}, {nb[3]})"), None
         elif kind == "J":
             t = b2f(a[0])
             if not (times[step] <= t <= times[step + 1]):
                 return f"jump at {t!r} outside step {step}", None
+            sweeps_since_anchor = 0
     for (t, a, b, fa, fb) in getattr(tr, "jump_info", []):
         if not (abs(b - a) < 1 and fa * fb <= 0 and (t == a or t == b)):
             return f"jump at {t!r} not at an end of a converged sign-change bracket a={a!r} b={b!r} fa={fa!r} fb={fb!r}", None
